@@ -750,13 +750,17 @@ class HfProtocol(utils.EventEmitter):
             if header == -1 or trailer == -1:
                 return
 
-            # Isolate the AT response code and parameters.
+            # Isolate the AT response code and parameters, and consume the
+            # response bytes before parsing them, so that a malformed response
+            # is dropped instead of being parsed again on every later call.
             raw_response = self.read_buffer[header + 2 : trailer]
-            response = AtResponse.parse_from(raw_response)
-            logger.debug(f"<<< {raw_response.decode()}")
-
-            # Consume the response bytes.
             self.read_buffer = self.read_buffer[trailer + 2 :]
+            try:
+                response = AtResponse.parse_from(raw_response)
+                logger.debug(f"<<< {raw_response.decode()}")
+            except Exception:
+                logger.warning(f"ignoring malformed AT response: {raw_response!r}")
+                continue
 
             # Forward the received code to the correct queue.
             if self.pending_command and (
@@ -1245,13 +1249,18 @@ class AgProtocol(utils.EventEmitter):
             if trailer == -1:
                 return
 
-            # Isolate the AT response code and parameters.
+            # Isolate the AT command line, and consume its bytes before parsing
+            # it, so that a malformed line is answered with ERROR once instead
+            # of being parsed again on every later call.
             raw_command = self.read_buffer[:trailer]
-            command = AtCommand.parse_from(raw_command)
-            logger.debug(f"<<< {raw_command.decode()}")
-
-            # Consume the response bytes.
             self.read_buffer = self.read_buffer[trailer + 1 :]
+            try:
+                command = AtCommand.parse_from(raw_command)
+                logger.debug(f"<<< {raw_command.decode()}")
+            except Exception:
+                logger.warning(f"malformed AT command: {raw_command!r}")
+                self.send_error()
+                continue
 
             if command.sub_code == AtCommand.SubCode.TEST:
                 handler_name = f'_on_{command.code.lower()}_test'
